@@ -375,7 +375,8 @@ pub const RULE_C16: &str = "proptest programs of 2..3 clients with 1..2 commands
 
 pub const ASSUME_L2: &[&str] = &[
     "schedule control stops at the public Cache trait boundary: interleavings inside one MemoryStore method (between two DashMap calls) are only reached by the OS-scheduled stress phase, probabilistically",
-    "DashMap's own shard locking is trusted",
+    "DashMap's own shard locking is trusted; how the store uses it is not: the stress phases keep the map's shards write-locked by commands on other keys (stores to neighbour keys, delayed flushes over 100 000 filler records) while the judged keys are hammered, and a key that is never deleted must never be reported missing",
+    "a schedule of more than 5000 store operations for at most six commands is reported as a command that loops (the harness unwinds out of it)",
     "the clock does not move during the concurrent phase",
 ];
 
